@@ -4,129 +4,14 @@
 package symmetry
 
 import (
-	"fmt"
 	"go/token"
-	"go/types"
-	"sort"
-	"strings"
 
 	"golang.org/x/tools/go/ssa"
 
 	"verif/tools/internal/ssax"
 )
 
-// canon renders a value as a canonical expression string: loads of fields
-// become field paths, integer arithmetic a sorted linear form.  Two Index
-// instructions with equal canonical strings denote the same byte provided no
-// write to a loaded field lies between them (see sameByte).
-func canon(v ssa.Value) string { return canonD(v, 0) }
-
-func canonD(v ssa.Value, depth int) string {
-	if v == nil {
-		return ""
-	}
-	if depth > 12 {
-		return "%" + v.Name()
-	}
-	switch x := v.(type) {
-	case *ssa.Parameter:
-		return "$" + x.Name()
-	case *ssa.Const:
-		if k, ok := ssax.ConstInt(x); ok {
-			return fmt.Sprint(k)
-		}
-		if s, ok := ssax.ConstString(x); ok {
-			return fmt.Sprintf("%q", s)
-		}
-		return x.String()
-	case *ssa.Global:
-		return "@" + x.Name()
-	case *ssa.FreeVar:
-		return "^" + x.Name()
-	case *ssa.UnOp:
-		if x.Op == token.MUL {
-			return "*" + canonD(x.X, depth+1)
-		}
-		return x.Op.String() + "(" + canonD(x.X, depth+1) + ")"
-	case *ssa.FieldAddr:
-		st := x.X.Type().Underlying().(*types.Pointer).Elem().Underlying().(*types.Struct)
-		return canonD(x.X, depth+1) + "." + st.Field(x.Field).Name()
-	case *ssa.Field:
-		st := x.X.Type().Underlying().(*types.Struct)
-		return canonD(x.X, depth+1) + "." + st.Field(x.Field).Name()
-	case *ssa.IndexAddr:
-		return canonD(x.X, depth+1) + "[" + canonD(x.Index, depth+1) + "]"
-	case *ssa.Index:
-		return canonD(x.X, depth+1) + "[" + canonD(x.Index, depth+1) + "]"
-	case *ssa.Lookup:
-		return canonD(x.X, depth+1) + "[" + canonD(x.Index, depth+1) + "]"
-	case *ssa.Slice:
-		return "(" + canonD(x.X, depth+1) + "[" + canonD(x.Low, depth+1) + ":" + canonD(x.High, depth+1) + "])"
-	case *ssa.Convert:
-		if b, ok := x.Type().Underlying().(*types.Basic); ok && b.Info()&types.IsInteger != 0 {
-			if bx, ok := x.X.Type().Underlying().(*types.Basic); ok && bx.Info()&types.IsInteger != 0 {
-				return canonD(x.X, depth+1)
-			}
-		}
-	case *ssa.ChangeType:
-		return canonD(x.X, depth+1)
-	case *ssa.BinOp:
-		if x.Op == token.ADD || x.Op == token.SUB {
-			if b, ok := x.Type().Underlying().(*types.Basic); ok && b.Info()&types.IsInteger != 0 {
-				k, terms := linear(x, depth)
-				var keys []string
-				for t := range terms {
-					keys = append(keys, t)
-				}
-				sort.Strings(keys)
-				var sb strings.Builder
-				for _, t := range keys {
-					if terms[t] == 0 {
-						continue
-					}
-					fmt.Fprintf(&sb, "%+d·%s", terms[t], t)
-				}
-				if k != 0 || sb.Len() == 0 {
-					fmt.Fprintf(&sb, "%+d", k)
-				}
-				return "(" + sb.String() + ")"
-			}
-		}
-	}
-	return "%" + v.Name()
-}
-
-func linear(v ssa.Value, depth int) (int64, map[string]int64) {
-	terms := map[string]int64{}
-	var k int64
-	var rec func(v ssa.Value, sign int64, d int)
-	rec = func(v ssa.Value, sign int64, d int) {
-		if c, ok := ssax.ConstInt(v); ok {
-			k += sign * c
-			return
-		}
-		if bo, ok := v.(*ssa.BinOp); ok && d < 20 && (bo.Op == token.ADD || bo.Op == token.SUB) {
-			rec(bo.X, sign, d+1)
-			if bo.Op == token.ADD {
-				rec(bo.Y, sign, d+1)
-			} else {
-				rec(bo.Y, -sign, d+1)
-			}
-			return
-		}
-		if cv, ok := v.(*ssa.Convert); ok {
-			if bx, ok := cv.X.Type().Underlying().(*types.Basic); ok && bx.Info()&types.IsInteger != 0 {
-				if b, ok := cv.Type().Underlying().(*types.Basic); ok && b.Info()&types.IsInteger != 0 {
-					rec(cv.X, sign, d+1)
-					return
-				}
-			}
-		}
-		terms[canonD(v, depth+1)] += sign
-	}
-	rec(v, 1, 0)
-	return k, terms
-}
+func canon(v ssa.Value) string { return ssax.Canon(v) }
 
 // loadedFields lists the (struct, field) pairs loaded inside v's expression tree.
 func loadedFields(v ssa.Value, out map[string]bool, depth int) {
